@@ -42,7 +42,9 @@ MLgood  == Keep /\ \E d \in Numbers : Step([e |-> "lc", dt |-> 0, valid |-> TRUE
 MLcrd   == Keep /\ \E d \in Numbers : Step([e |-> "lc", dt |-> 0, valid |-> TRUE, cmd |-> LCRD, sub |-> (t_letter + d) % NBuf])
 MLbad   == Keep /\ WithRetry /\ Step([e |-> "lc", dt |-> 0, valid |-> TRUE, cmd |-> LBAD, sub |-> 0])
 MLrty   == Keep /\ WithRetry /\ r_ignore /\ Step([e |-> "lc", dt |-> 0, valid |-> TRUE, cmd |-> LRTY, sub |-> 0])
-MLother == Keep /\ lk.up /\ \E v \in BOOLEAN : Step([e |-> "lc", dt |-> 0, valid |-> v, cmd |-> LDN, sub |-> 0])
+\* (the partner's keep-alive, valid or corrupted: only the recovery timer cares)
+MLother == Keep /\ lk.up /\ R + RecSlack < TCap
+                /\ \E v \in BOOLEAN : Step([e |-> "lc", dt |-> 0, valid |-> v, cmd |-> LDN, sub |-> 0])
 (* ---- Env: protocol layer ------------------------------------------------ *)
 MAcc     == Keep /\ Step([e |-> "acc", dt |-> 0, c |-> t_txSeq])
 MConsume == Keep /\ r_buf # <<>> /\ Step([e |-> "consume", dt |-> 0, c |-> Head(r_buf).c])
